@@ -268,7 +268,7 @@ def due_overtaken(hist: dict, r: dict) -> list:
     for c, (q, cat, _) in cspec.items():
         if cat == 0:
             normal_per_queue[q] = normal_per_queue.get(q, 0) + 1
-    due, arr_t, expiry, queue_of, promo = {}, {}, {}, {}, {}
+    due, arr_t, expiry, queue_of, promo, put_t = {}, {}, {}, {}, {}, {}
     prev_places: dict = {}
     for n, e in enumerate(r["trace"]):
         places, msgs = e["after"]["places"], e["after"]["msgs"]
@@ -278,6 +278,7 @@ def due_overtaken(hist: dict, r: dict) -> list:
             expiry[i] = expiry_of(e["params"])
             arr_t[i] = due[i] if due[i] is not None else e["t"]
             queue_of[i] = e.get("queue")
+            put_t[i] = e["t"]
             promo.pop(i, None)
         elif e["op"] in ("reject", "finish"):
             for i in ([e["id"]] if e["op"] == "reject" else e.get("returned", [])):
@@ -288,7 +289,8 @@ def due_overtaken(hist: dict, r: dict) -> list:
             q = cspec[e["c"]][0]
             # this call re-read the delayed store of its queue when it started
             for i, T in due.items():
-                if T is not None and i not in promo and T < e["t"]:
+                # (trace entries are appended when a call ENDS; e["t"] is when it started: the message must have existed then)
+                if T is not None and i not in promo and T < e["t"] and put_t.get(i, 0) < e["t"]:
                     pl = prev_places.get(i)
                     if pl and len(pl) == 1 and pl[0][0] in ("delayed", "simple") and pl[0][1] == q:
                         promo[i] = e["t"]
